@@ -299,6 +299,10 @@ func respell(s string, form int) string {
 		return strings.ReplaceAll(s, " ", "　")
 	case 5:
 		return width.Widen.String(s)
+	case 6:
+		return strings.ReplaceAll(s, " ", "\u00a0")
+	case 7:
+		return strings.Replace(strings.Replace(s, "a", "\u00aa", 1), "o", "\u00ba", 1)
 	}
 	return s
 }
